@@ -171,6 +171,12 @@ func (p *c9prog) step(c *fw.Ctx) {
 		p.obs = append(p.obs, pt.V(n))
 		p.created++
 	})
+	add("repeat-wrapped-once", func() { // a repetition count of 1 still makes a fresh, deep copy
+		n := p.fresh("arr")
+		p.stmts = append(p.stmts, pt.InferDecl{Name: n, X: pt.Bin("*", pt.A(src), pt.N(1))})
+		p.obs = append(p.obs, pt.V(n))
+		p.created++
+	})
 	add("repeat-wrapped", func() {
 		n := p.fresh("arr")
 		p.stmts = append(p.stmts, pt.InferDecl{Name: n, X: pt.Bin("*", pt.A(src), pt.N(2))})
@@ -211,6 +217,7 @@ func (p *c9prog) step(c *fw.Ctx) {
 			p.declare(p.fresh("b"), pt.Bin("+", src, pt.ArrLit{Els: k.v2.(pt.ArrLit).Els[:1]}))
 			p.created++
 		})
+		add("repeat-once", func() { p.declare(p.fresh("b"), pt.Bin("*", src, pt.N(1))); p.created++ })
 		add("repeat", func() { p.declare(p.fresh("b"), pt.Bin("*", src, pt.N(2))); p.created++ })
 	}
 	if T.K == pt.Bool {
